@@ -14,6 +14,8 @@ def render(d):
     body = b""
     if d["pre"]:
         body += bytes(d["pre"][0]) + eol
+    elif d.get("lead"):
+        body += eol          # the line end of the first delimiter, with nothing in front of it
     for p in d["parts"]:
         body += b"--BB" + lws + eol
         cd = b'form-data;' + (eol + b" " if p["fold"] else b" ") + b'name="' + esc(p["name"]) + b'"'
